@@ -156,6 +156,13 @@ Proof.
   destruct (join_sixels_ok fw fh done [] Hw Hh (Forall_nil _) Hd) as (k & Ek & Hk). rewrite Ek. cbn [bind].
   apply sixel_layers_ok; auto. apply Forall_rev. exact Hk.
 Qed.
+Lemma sixel_epilogue_e_ok : forall fw fh done serr, SixelOk fw fh done -> exists l, sixel_epilogue_e fw fh done serr = ROk l.
+Proof.
+  intros fw fh done serr [E|(Hw & Hh & Hd)]; [subst; destruct serr; eexists; reflexivity|]. unfold sixel_epilogue_e.
+  destruct (join_sixels_ok fw fh done [] Hw Hh (Forall_nil _) Hd) as (k & Ek & Hk). rewrite Ek. cbn [bind].
+  destruct serr; [eexists; reflexivity|].
+  destruct (sixel_layers_ok fw fh (rev k) Hw Hh) as [l El]; [apply Forall_rev; exact Hk|]. rewrite El. eexists; reflexivity.
+Qed.
 
 (* ---- the loaders ------------------------------------------------------------------------------------------------------------------------ *)
 (* the macro-nesting overflow: the stream stops at a character that was processed while a macro was stored *)
@@ -166,18 +173,18 @@ Definition MacroOverflow (e : emu) (m0 : mach) (cs : list Z) : Prop :=
 Definition ansi_like_init (music : Z) (bs : bool) (s : option fsauce) : mach :=
   file_mach (file_term 80 25 s [] 7 0 (sauce_ice s)) (file_pst music bs s).
 
-Lemma load_ansi_like_total : forall e music bs s fw fh done cs,
+Lemma load_ansi_like_total : forall e music bs s fw fh done serr cs,
   e <> EViewdata -> e <> EMode7 -> fsauce_nonneg s -> SixelOk fw fh done ->
-  match load_ansi_like e music bs s fw fh done cs with
-  | TOk _ _ => True
+  match load_ansi_like e music bs s fw fh done serr cs with
+  | TOk _ _ | TErr => True
   | TPanic _ => False
   | TOverflow => MacroOverflow e (ansi_like_init music bs s) cs
   end.
 Proof.
-  intros e music bs s fw fh done cs NV NM Hs Hx. unfold load_ansi_like. fold (ansi_like_init music bs s).
+  intros e music bs s fw fh done serr cs NV NM Hs Hx. unfold load_ansi_like. fold (ansi_like_init music bs s).
   assert (HW : W (mt (ansi_like_init music bs s))) by (apply file_term_W; [lia|exact Hs]).
-  assert (EP : forall t, match epilogue fw fh done t with TOk _ _ => True | TPanic _ => False | TOverflow => False end).
-  { intro t. unfold epilogue. destruct (sixel_epilogue_ok fw fh done Hx) as [l El]. rewrite El. exact I. }
+  assert (EP : forall t, match epilogue fw fh done serr t with TOk _ _ | TErr => True | TPanic _ => False | TOverflow => False end).
+  { intro t. unfold epilogue. destruct (sixel_epilogue_e_ok fw fh done serr Hx) as [l El]. rewrite El. destruct l; exact I. }
   assert (K : (exists m', run e (ansi_like_init music bs s) cs = RunOk m') \/ MacroOverflow e (ansi_like_init music bs s) cs).
   { destruct e; try contradiction.
     1-5: (match goal with |- context [run ?e0 _ _] =>
@@ -186,7 +193,7 @@ Proof.
     - destruct (run_ascii_np cs _ HW) as (m' & E & _). left; exists m'; exact E.
     - destruct (run_atascii_np cs _ HW) as (m' & E & _). left; exists m'; exact E. }
   destruct K as [(m' & E)|M].
-  - rewrite E. specialize (EP (mt m')). destruct (epilogue fw fh done (mt m')); first [exact I|contradiction].
+  - rewrite E. specialize (EP (mt m')). destruct (epilogue fw fh done serr (mt m')); first [exact I|contradiction].
   - pose proof M as (_ & E & _). rewrite E. exact M.
 Qed.
 Lemma load_seq_total : forall s cs, fsauce_nonneg s -> exists t, load_seq s cs = TOk t [].
@@ -206,14 +213,14 @@ Qed.
    character list: a buffer; or the macro-nesting overflow of one of the five ANSI-based parsers; never a panic *)
 Definition text_overflow (f : tfmt) (s : option fsauce) (cs : list Z) : Prop :=
   match emu_of f with Some e => MacroOverflow e (ansi_like_init 0 false s) cs | None => False end.
-Lemma text_load_total_proof : forall f s fw fh done cs, fsauce_nonneg s -> SixelOk fw fh done ->
-  match text_load f s fw fh done cs with
-  | TOk _ _ => True
+Lemma text_load_total_proof : forall f s fw fh done serr cs, fsauce_nonneg s -> SixelOk fw fh done ->
+  match text_load f s fw fh done serr cs with
+  | TOk _ _ | TErr => True
   | TPanic _ => False
   | TOverflow => text_overflow f s cs
   end.
 Proof.
-  intros f s fw fh done cs Hs Hx. unfold text_overflow.
+  intros f s fw fh done serr cs Hs Hx. unfold text_overflow.
   destruct f; cbn [text_load emu_of];
     try (apply load_ansi_like_total; [discriminate|discriminate|exact Hs|exact Hx]).
   - destruct (load_seq_total s cs Hs) as [t E]. rewrite E. exact I.
@@ -221,11 +228,11 @@ Proof.
 Qed.
 (* no macro is ever stored when the text contains no `\` (0x5C, the final byte of ESC \ that completes a DCS string) ... stated
    on the outcome only: ASCII, PETSCII and ATASCII files never overflow *)
-Lemma text_load_standalone_total : forall f s fw fh done cs, (f = TAsc \/ f = TSeq \/ f = TAta) -> fsauce_nonneg s -> SixelOk fw fh done ->
-  exists t l, text_load f s fw fh done cs = TOk t l.
+Lemma text_load_standalone_total : forall f s fw fh done serr cs, (f = TAsc \/ f = TSeq \/ f = TAta) -> fsauce_nonneg s -> SixelOk fw fh done ->
+  (exists t l, text_load f s fw fh done serr cs = TOk t l) \/ text_load f s fw fh done serr cs = TErr.
 Proof.
-  intros f s fw fh done cs Hf Hs Hx. pose proof (text_load_total_proof f s fw fh done cs Hs Hx) as G.
-  destruct (text_load f s fw fh done cs) as [t l| |] eqn:E; [eauto|contradiction|].
+  intros f s fw fh done serr cs Hf Hs Hx. pose proof (text_load_total_proof f s fw fh done serr cs Hs Hx) as G.
+  destruct (text_load f s fw fh done serr cs) as [t l| | |] eqn:E; [left; eauto|right; reflexivity|contradiction|].
   unfold text_overflow in G. destruct Hf as [->|[->| ->]]; cbn in G; try contradiction.
   destruct G as (Hwr & _). discriminate.
 Qed.
@@ -234,7 +241,7 @@ Qed.
 (* (1) C01-stackoverflow:invoke_macro_by_id through a file: `ESC P 1;0;1 ! z 1B5B312A7A ESC \` stores macro 1 = `ESC [ 1 * z`, `ESC [ 1 * z` runs it *)
 Definition macro_bomb : list Z :=
   [27; 80; 49; 59; 48; 59; 49; 33; 122; 49; 66; 53; 66; 51; 49; 50; 65; 55; 65; 27; 92; 27; 91; 49; 42; 122].
-Lemma macro_overflow_witness : text_load TAns None 8 16 [] macro_bomb = TOverflow.
+Lemma macro_overflow_witness : text_load TAns None 8 16 [] false macro_bomb = TOverflow.
 Proof. vm_compute. reflexivity. Qed.
 (* (2) a sixel next to a font 0 of width 0 / of width 2^30 (cursor in column 2) / of size -1 x -1 (PSF2 header fields are u32) *)
 Lemma sixel_div_zero_witness : sixel_epilogue 0 16 [mkSx 0 0 4 6] = RPanic SITE_SIXEL_DIV.
